@@ -194,8 +194,7 @@ func (p *Proxy) handleRangeRequest(r responder.Responder, req *http.Request, cac
 	r.SetHeader("Accept-Ranges", "bytes")
 	r.SetHeader("Content-Range", fmt.Sprintf("bytes %d-%d/%d", start, end, cached.Metadata.Size))
 	r.SetHeader("Content-Length", fmt.Sprintf("%d", length))
-	r.SetHeader("ETag", cached.Metadata.Object.ETag)
-	r.SetHeader("Last-Modified", cached.Metadata.Object.LastModified.Format(http.TimeFormat))
+	setStoredValidators(r, cached.Metadata.Object)
 
 	sections := io.NewSectionReader(cached.Data, start, length)
 	return finalizeAndRespond(r, sections, http.StatusPartialContent, req)
@@ -266,8 +265,7 @@ func (p *Proxy) processRequest(r responder.Responder, req *http.Request, key cac
 
 		r.SetHeaders(fetched.Cached.Entry.Metadata.Object.Header)
 		r.SetHeader("Accept-Ranges", "bytes")
-		r.SetHeader("ETag", fetched.Cached.Entry.Metadata.Object.ETag)
-		r.SetHeader("Last-Modified", fetched.Cached.Entry.Metadata.Object.LastModified.Format(http.TimeFormat))
+		setStoredValidators(r, fetched.Cached.Entry.Metadata.Object)
 		addCacheHeaders(r, req, typeutils.Some(fetched.Cached.Entry), fetchResultToCacheStatus(fetched))
 
 		slog.Debug("Serving cached response", "url", req.URL, "key", key)
@@ -294,6 +292,15 @@ func (p *Proxy) handleHTTP(r responder.Responder, proxyReq *http.Request) error 
 	key := cache.MakeFromRequest(proxyReq)
 
 	return p.processRequest(r, proxyReq, key, clientHd)
+}
+
+// The stored header set holds the origin's own ETag and Last-Modified lines, written as the origin
+// wrote them (every ETag line, a date in an obsolete form, a value that is no date at all): they go
+// out unchanged. Only a response that came without a Last-Modified gets one, the time it was stored.
+func setStoredValidators(r responder.Responder, info cachedRequestInfo) {
+	if len(info.Header.Values("Last-Modified")) == 0 {
+		r.SetHeader("Last-Modified", info.LastModified.Format(http.TimeFormat))
+	}
 }
 
 // How much unread request content is skipped on a tunnel before the next request is read.
